@@ -135,13 +135,21 @@ func (c *aliasCtx) history(nops int) string {
 			case 6, 7:
 				t := c.pick(true)
 				var input interface{}
+				var spare []interface{}
 				var gin string
 				switch r.intn(4) {
 				case 0:
-					arr := make([]interface{}, r.intn(4))
+					// (spare capacity behind the slice, filled with a sentinel: an append by the callee would write there)
+					n := r.intn(4)
+					full := make([]interface{}, n+3)
+					for i := range full {
+						full[i] = "spare-capacity-sentinel"
+					}
+					arr := full[:n]
 					for i := range arr {
 						arr[i] = genPlainValue(r)
 					}
+					spare = full
 					input, gin = arr, gRv(arr, c.sink)
 				case 1:
 					m := map[string]interface{}{}
@@ -160,15 +168,15 @@ func (c *aliasCtx) history(nops int) string {
 				}
 				desc = fmt.Sprintf("#%d.CreateRow(%s)", t, describe(input))
 				op = fmt.Sprintf("HCreate %d %s", t, gin)
-				argBefore := fmt.Sprintf("%#v", input)
+				argBefore := fmt.Sprintf("%#v|%#v", input, spare)
 				row, err := c.objs[t].tpl.CreateRow(input)
 				if err == nil && row != nil {
 					newObj.row = row
 				}
 				// the argument belongs to the caller: CreateRow reads it and leaves it as it was
 				c.rep.OracleChecks["C15"]++
-				if argAfter := fmt.Sprintf("%#v", input); argAfter != argBefore {
-					c.violate("C15", fmt.Sprintf("alias: CreateRow changed its argument: %s -> %s", argBefore, argAfter), map[string]interface{}{"stream": "alias", "history": strings.Join(append(append([]string{}, hist...), desc), " ; ")})
+				if argAfter := fmt.Sprintf("%#v|%#v", input, spare); argAfter != argBefore {
+					c.violate("C15", fmt.Sprintf("alias: CreateRow changed its argument (or the memory behind it): %s -> %s", argBefore, argAfter), map[string]interface{}{"stream": "alias", "history": strings.Join(append(append([]string{}, hist...), desc), " ; ")})
 				}
 			case 8, 9:
 				t, src := c.pick(true), c.pick(false)
